@@ -34,7 +34,7 @@ META = {
 def gen_scenarios(rng, n):
     out = []
     for _ in range(n):
-        ops = c16.gen_workload(rng, rng.choice([1, 2, 3, 4]), rng.randrange(2, 9))
+        ops = c16.gen_workload(rng, rng.choice([1, 2, 3, 4]), rng.randrange(2, 7))
         out.append({"k": "clean", "ops": ops})
     # ufs / aufs: driven end to end and judged by the oracle only (no model)
     for i in range(max(2, n // 5)):
@@ -102,7 +102,7 @@ def kind_fn(s, o):
 
 
 def run(res, tier):
-    res.rule = ("random histories of 2-8 operations (GET miss, reload of a cached URL with a new version of another size, "
+    res.rule = ("random histories of 2-6 operations (GET miss, reload of a cached URL with a new version of another size, "
                 "PURGE) over 1-4 URLs with body sizes from 300 bytes to 70 KB (1-5 rock slots) on a 16 MB rock cache_dir "
                 "(ample space), SIGTERM, restart, every URL fetched with only-if-cached; plus about one history in five on a "
                 "ufs or aufs cache_dir judged by the oracle only; non-trivial = the run completed")
@@ -111,6 +111,6 @@ def run(res, tier):
                     run_impl=c16.run_impl, to_case=c16.to_case, oracle=oracle,
                     corr_name="DiskcrashModel (writes, rebuild, hit) vs the running squid",
                     n_quick=14, n_thorough=500, seed_salt=17, model_blind=c16.model_blind,
-                    kind_fn=kind_fn, nontrivial_fn=lambda s, o: " | " in o)
+                    kind_fn=kind_fn, nontrivial_fn=lambda s, o: " | " in o, retries=1)
     finally:
         c16._state.clear()
